@@ -4,13 +4,14 @@
    class {(x,y), (-x,-y)} of the represented point only; Equal is an equivalence on
    valid elements, holds between all representations of one class, and is never true
    against the all-zero value.
-   PARTIAL (see DESIGN.md 6.7): "Equal -> equal Bytes" and "equal Bytes -> Equal" for
-   arbitrary pairs of subgroup elements need that x/y is injective on classes, which
-   needs p prime and d a non-square; that direction is checked by correspondence on
-   random operation histories, not proved here. *)
+   C07_equal_iff_bytes proves "Equal <-> equal Bytes" for all valid elements (any two
+   representations of curve points with y <> 0) under two EXPLICIT number-theoretic
+   premises: p is prime and d is a non-square (stated as: d w^2 <> 1 for every w).
+   PARTIAL: "decoding P.Bytes() succeeds and gives an element Equal to P" needs the
+   completeness of the table-driven square root (C17 partial); decided by correspondence. *)
 From Coq Require Import ZArith List.
 From GoIpa Require Import Model.Zq Model.Alg Model.Edwards Model.FpSqrt Model.Banderwagon
-  Proofs.AlgLaws Proofs.EdwardsProofs Proofs.GroupProofs Proofs.BwProofs.
+  Proofs.AlgLaws Proofs.EdwardsProofs Proofs.GroupProofs Proofs.BwProofs Proofs.CanonProofs.
 Open Scope Z_scope.
 
 (* Bytes does not change under projective rescaling (any invertible factor, incl. the
@@ -56,6 +57,16 @@ Theorem C07_equal_iff_same_slope : forall P Q p q,
   (bw_equal P Q = true <-> bw_map_to_base P = bw_map_to_base Q).
 Proof. exact bw_equal_iff_map. Qed.
 Print Assumptions C07_equal_iff_same_slope.
+
+(* MAIN: Equal exactly when the compressed encodings are equal *)
+Theorem C07_equal_iff_bytes :
+  Znumtheory.prime p_mod -> (forall w : Fp, zq_mul bw_d (zq_mul w w) <> zq_one) ->
+  forall P Q p q,
+    rep fpo P p -> rep fpo Q q -> on_curve_p p -> on_curve_p q ->
+    zval (snd p) <> 0 -> zval (snd q) <> 0 -> nonzero_xy P -> nonzero_xy Q ->
+    (bw_equal P Q = true <-> bw_bytes P = bw_bytes Q).
+Proof. exact equal_iff_bytes. Qed.
+Print Assumptions C07_equal_iff_bytes.
 
 Example C07_example :
   let G2 := bw_double bw_generator in
